@@ -124,6 +124,10 @@ pub struct TRd {
     pub cfg: RCfg,
     pub dead: bool,
     pub seekable: bool,
+    /// length of the data in bits (driver bookkeeping: on zero-extended readers a
+    /// unary read past the last one never returns, by design, and is never issued)
+    pub nbits: u64,
+    pub ends_with_one: bool,
 }
 
 impl TRd {
@@ -144,7 +148,8 @@ impl TRd {
                 .b("has_counter", r.counter().is_some())
                 .bytes("bytes", bytes),
         );
-        TRd { id, r, cfg: cfg.clone(), dead: false, seekable }
+        let ends_with_one = bytes.last().map(|b| if cfg.le { b & 0x80 != 0 } else { b & 1 != 0 }).unwrap_or(false);
+        TRd { id, r, cfg: cfg.clone(), dead: false, seekable, nbits: 8 * bytes.len() as u64, ends_with_one }
     }
 
     fn pos(&mut self) -> i64 {
@@ -205,6 +210,20 @@ impl TRd {
         r
     }
 
+    /// is a unary read (or a code starting with one) guaranteed to return?
+    pub fn unary_safe(&mut self) -> bool {
+        if self.cfg.strict() {
+            return true;
+        }
+        if !self.ends_with_one {
+            return false;
+        }
+        match self.r.bit_pos() {
+            Some(Out::Ok(p)) => p < self.nbits,
+            _ => false,
+        }
+    }
+
     pub fn read_unary(&mut self, tr: &mut Tr) -> Out<u64> {
         let r = self.r.read_unary();
         let e = Ev::new("read_unary").i("o", self.id);
@@ -245,7 +264,7 @@ impl TRd {
         let r2 = self.r.try_clone()?;
         let id = tr.new_id();
         tr.emit(Ev::new("clone").i("o", self.id).i("o2", id));
-        Some(TRd { id, r: r2, cfg: self.cfg.clone(), dead: self.dead, seekable: self.seekable })
+        Some(TRd { id, r: r2, cfg: self.cfg.clone(), dead: self.dead, seekable: self.seekable, nbits: self.nbits, ends_with_one: self.ends_with_one })
     }
 
     /// forget the object in the trace state
